@@ -8,6 +8,8 @@ pub fn dispatch(req: &Value) -> Value {
         "import_path" => import_path(req),
         "export_history" => export_history(req),
         "binding_keys" => binding_keys(),
+        "derive_outcomes" => derive_outcomes(),
+        "ts_wins" => ts_wins(),
         "ts_field_name" => ts_field_name(req),
         "parse_docs" => parse_docs(req),
         "conformance" => super::conformance::run(req["seed"].as_u64().unwrap_or(0), req["n"].as_u64().unwrap_or(2000) as usize),
@@ -122,6 +124,10 @@ second paragraph after a blank line */
     #[derive(TS)]
     #[ts(export_to = "shared.ts")]
     pub struct M { pub m: i32 }
+    /// Doc of N
+    #[derive(TS)]
+    #[ts(export_to = "shared.ts")]
+    pub struct N { pub n: i32 }
     #[derive(TS)]
     #[ts(export_to = "shared.ts")]
     pub struct Z {
@@ -143,6 +149,14 @@ second paragraph after a blank line */
     #[derive(TS)]
     #[ts(export_to = "views.ts")]
     pub struct W2 { pub y: P1, pub z: P3 }
+    // a dependency reachable only through the arguments of a type spelled without `<..>` (alias), and through a root-level argument
+    pub type AliasVec = Vec<P1>;
+    #[derive(TS)]
+    #[ts(export_to = "alias_root.ts")]
+    pub struct AL { pub items: AliasVec }
+    #[derive(TS)]
+    #[ts(export_to = "generic_root.ts")]
+    pub struct GR<T> { pub value: T }
     #[derive(TS)]
     pub struct C { pub a: A, pub b: Option<B> }
     #[derive(TS)]
@@ -158,7 +172,7 @@ fn export_step(kind: &str, ty: &str, dir: Option<&str>) -> Result<(), String> {
         "export_all_to" => <$t>::export_all_to(dir.unwrap()),
         _ => panic!("unknown step kind"),
     } } }
-    let r = match ty { "A" => go!(hist::A), "B" => go!(hist::B), "C" => go!(hist::C), "D" => go!(hist::D), "M" => go!(hist::M), "Z" => go!(hist::Z), "W1" => go!(hist::W1), "W2" => go!(hist::W2), "P1" => go!(hist::P1), _ => panic!("unknown type") };
+    let r = match ty { "A" => go!(hist::A), "B" => go!(hist::B), "C" => go!(hist::C), "D" => go!(hist::D), "M" => go!(hist::M), "N" => go!(hist::N), "AL" => go!(hist::AL), "GR" => go!(hist::GR<Vec<hist::P2>>), "Z" => go!(hist::Z), "W1" => go!(hist::W1), "W2" => go!(hist::W2), "P1" => go!(hist::P1), _ => panic!("unknown type") };
     r.map_err(|e| format!("{e:?}"))
 }
 
@@ -249,10 +263,15 @@ fn parse_docs(req: &Value) -> Value {
         Err(p) => json!({"panic": p, "agree": false}),
         Ok(Err(e)) => json!({"actual_err": e, "agree": true}),
         Ok(Ok(a)) => {
-            let ok = if lines.is_empty() { a.is_empty() } else {
+            let mut ok = if lines.is_empty() { a.is_empty() } else {
                 a.starts_with("/**") && a.ends_with("*/\n") && a.find("*/") == Some(a.len() - 3)
             };
-            json!({"actual": a, "agree": ok, "expected": "empty, or exactly one block comment: starts with /**, the first */ is the one that ends it"})
+            // the full documentation text: every word of every doc attribute appears, in order
+            let mut pos = 0usize;
+            for w in lines.iter().flat_map(|l| l.split(|c: char| !c.is_alphanumeric()).filter(|w| !w.is_empty()).map(|w| w.to_string()).collect::<Vec<_>>()) {
+                match a[pos..].find(&w) { Some(k) => pos += k + w.len(), None => { ok = false; break; } }
+            }
+            json!({"actual": a, "agree": ok, "expected": "empty, or exactly one block comment: starts with /**, the first */ is the one that ends it, and it contains the text of every doc attribute in order"})
         }
     }
 }
@@ -277,6 +296,9 @@ mod keys {
     #[derive(TS, Serialize)]
     #[serde(rename_all = "snake_case", rename_all_fields = "PascalCase")]
     pub enum K5 { FirstVariant { #[ts(type = "string")] r#type: i32, inner_field: i32 }, SecondOne { r#match: i32 } }
+    #[derive(TS, Serialize)]
+    #[serde(rename_all_fields = "PascalCase")]
+    pub enum K8 { #[serde(rename_all = "SCREAMING_SNAKE_CASE")] Own { inner_field: i32 }, Inherits { inner_field: i32 } }
     #[derive(TS, Serialize, Default)]
     #[serde(rename_all = "UPPERCASE")]
     pub struct K6 { #[ts(type = "string")] pub aé: i32, pub r#loop: i32 }
@@ -343,6 +365,112 @@ fn binding_keys() -> Value {
         out.push(json!({"type": format!("K5 variant {k}"), "binding": arm, "binding_keys": got, "serde_json_keys": want, "outer_key": outer, "serde_tag": tag,
                         "agree": got == want && outer == vec![tag.clone()]}));
     }
+    for (v, k) in [(keys::K8::Own { inner_field: 0 }, 0usize), (keys::K8::Inherits { inner_field: 0 }, 1usize)] {
+        let js = serde_json::to_value(&v).unwrap();
+        let (tag, inner) = js.as_object().unwrap().iter().next().map(|(a, b)| (a.clone(), b.clone())).unwrap();
+        let inline = keys::K8::inline();
+        let arm = inline.split(" | ").nth(k).unwrap_or("").to_string();
+        let outer = ts_object_keys(&arm);
+        let inner_ts = arm.find('{').and_then(|p| arm[p + 1..].find('{').map(|q| arm[p + 1 + q..].to_string())).unwrap_or_default();
+        let mut got = ts_object_keys(&inner_ts); got.sort();
+        let mut want: Vec<String> = inner.as_object().map(|o| o.keys().cloned().collect()).unwrap_or_default(); want.sort();
+        out.push(json!({"type": format!("K8 variant {k}"), "binding": arm, "binding_keys": got, "serde_json_keys": want, "outer_key": outer, "serde_tag": tag,
+                        "agree": got == want && outer == vec![tag.clone()]}));
+    }
     let agree = out.iter().all(|o| o["agree"] == json!(true));
+    json!({"cases": out, "agree": agree})
+}
+
+
+// ---------------------------------------------------------------------------------------------------------
+// C16 on the real derive entry point: combinations documented as incompatible are diagnosed (Err), valid items expand, no panic
+fn derive_outcomes() -> Value {
+    let cases: Vec<(&str, bool)> = vec![
+        (r#"#[ts(untagged, tag = "t")] enum E { A { x: i32 }, B }"#, true),
+        (r#"#[ts(untagged, content = "c")] enum E { A { x: i32 }, B }"#, true),
+        (r#"#[ts(untagged, tag = "t", content = "c")] enum E { A { x: i32 }, B }"#, true),
+        (r#"#[ts(untagged, tag = "t", content = "c")] enum E { }"#, true),
+        (r#"#[ts(content = "c")] enum E { A { x: i32 } }"#, true),
+        (r#"#[ts(type = "string", as = "String")] struct S { a: i32 }"#, true),
+        (r#"#[ts(type = "string", rename_all = "camelCase")] struct S { a: i32 }"#, true),
+        (r#"#[ts(type = "string", tag = "t")] struct S { a: i32 }"#, true),
+        (r#"#[ts(as = "String", tag = "t")] struct S { a: i32 }"#, true),
+        (r#"#[ts(as = "String", rename_all = "camelCase")] struct S { a: i32 }"#, true),
+        (r#"#[ts(tag = "t")] struct S(i32, i32);"#, true),
+        (r#"#[ts(rename_all = "camelCase")] struct S(i32);"#, true),
+        (r#"#[ts(tag = "t")] struct S;"#, true),
+        (r#"#[ts(optional_fields)] struct S(Option<i32>);"#, true),
+        (r#"#[ts(no_such_key)] struct S { a: i32 }"#, true),
+        (r#"struct S { #[ts(no_such_key)] a: i32 }"#, true),
+        (r#"struct S { #[ts(type = "string", as = "String")] a: i32 }"#, true),
+        (r#"struct S { #[ts(type = "string", inline)] a: i32 }"#, true),
+        (r#"struct S { #[ts(flatten, rename = "x")] a: T }"#, true),
+        (r#"struct S { #[ts(flatten, inline)] a: T }"#, true),
+        (r#"enum E { #[ts(type = "string", as = "String")] A(i32) }"#, true),
+        (r#"enum E { #[ts(type = "string", inline)] A(i32) }"#, true),
+        (r#"struct S { a: i32, r#type: String }"#, false),
+        (r#"#[ts(rename_all = "camelCase")] struct S { some_field: i32, __: i32, Éa: i32 }"#, false),
+        (r#"#[ts(tag = "t", content = "c")] enum E { A { x: i32 }, B(i32), C }"#, false),
+        (r#"#[ts(untagged)] enum E { A { x: i32 }, B(i32), C }"#, false),
+        (r#"#[ts(tag = "t")] enum E { A { x: i32 }, C }"#, false),
+        (r#"struct S<T, const N: usize = 3> { a: [T; N] }"#, false),
+        (r#"struct S;"#, false),
+        (r#"enum E { }"#, false),
+    ];
+    let mut out = vec![];
+    let mut agree = true;
+    for (src, want_err) in cases {
+        let s = src.to_string();
+        let r = catch(move || {
+            let ts: proc_macro2::TokenStream = s.parse().map_err(|e: proc_macro2::LexError| e.to_string())?;
+            macrolib::verif_api::derive(ts).map(|_| ()).map_err(|e| e.to_string())
+        });
+        let (ok, what) = match &r {
+            Err(p) => (false, format!("PANIC: {p}")),
+            Ok(Err(e)) => (want_err, format!("error: {e}")),
+            Ok(Ok(())) => (!want_err, "expands".to_string()),
+        };
+        if !ok { agree = false; }
+        out.push(json!({"item": src, "expected": if want_err { "a compile error" } else { "an expansion" }, "actual": what, "agree": ok}));
+    }
+    json!({"cases": out, "agree": agree})
+}
+
+// ---------------------------------------------------------------------------------------------------------
+// C10 on really derived types: a key given both as #[ts(..)] and #[serde(..)] takes the ts value; serde alone is honoured
+mod wins {
+    use serde::Serialize;
+    use ts_rs::TS;
+    #[derive(TS, Serialize)]
+    #[serde(rename_all = "snake_case")]
+    #[ts(rename_all = "camelCase")]
+    pub enum V1 {
+        #[serde(rename = "wire_name")] #[ts(rename = "tsName")] First,
+        #[serde(rename = "only_serde")] Second,
+        #[ts(rename = "onlyTs")] Third,
+        #[ts(rename_all = "UPPERCASE")] #[serde(rename_all = "kebab-case")] Fourth { some_field: i32 },
+        PlainVariant,
+    }
+    #[derive(TS, Serialize)]
+    #[serde(rename = "SerdeName", rename_all = "snake_case")]
+    #[ts(rename = "TsName", rename_all = "PascalCase")]
+    pub struct S1 { #[serde(rename = "wire")] #[ts(rename = "tsField")] pub a_b: i32, #[serde(rename = "onlySerde")] pub c_d: i32, pub e_f: i32 }
+    #[derive(TS, Serialize)]
+    #[serde(tag = "serde_tag")]
+    #[ts(tag = "tsTag")]
+    pub enum T1 { A { x: i32 } }
+}
+fn ts_wins() -> Value {
+    use ts_rs::TS;
+    let mut out = vec![];
+    let mut agree = true;
+    let mut chk = |what: &str, text: String, must: Vec<&str>, must_not: Vec<&str>| {
+        let ok = must.iter().all(|m| text.contains(m)) && must_not.iter().all(|m| !text.contains(m));
+        if !ok { agree = false; }
+        out.push(json!({"case": what, "binding": text, "must_contain": must, "must_not_contain": must_not, "agree": ok}));
+    };
+    chk("enum V1: variant renames", wins::V1::inline(), vec!["\"tsName\"", "\"only_serde\"", "\"onlyTs\"", "SOME_FIELD", "\"plainVariant\""], vec!["wire_name", "some-field", "plain_variant"]);
+    chk("struct S1: container and field renames", wins::S1::decl(), vec!["type TsName", "tsField", "onlySerde", "EF"], vec!["SerdeName", "wire:", "e_f"]);
+    chk("enum T1: tag", wins::T1::inline(), vec!["\"tsTag\""], vec!["serde_tag"]);
     json!({"cases": out, "agree": agree})
 }
